@@ -96,6 +96,10 @@ def layout_check(d, names):
         if not mine or mine[0] != f:
             bad.append((f, "function %d has no body block starting at its entry" % f))
             continue
+        if ffi and len(mine) != 1:
+            # vm_execute_func_ffi raises with ip advanced past the descriptors: the lookup address is some
+            # address of the FFI body, which must therefore be ONE block
+            bad.append((f, "FFI function %d has %d table blocks, expected exactly one" % (f, len(mine))))
         for bi, b in enumerate(mine):
             h = ents[b]
             if not (b < h < end):
@@ -109,11 +113,12 @@ def layout_check(d, names):
                 # a clause block: CLEAR_STACK nparams first
                 if not (op(b) == "BYTECODE_CLEAR_STACK" and code[b][1] == np_):
                     bad.append((b, "clause block %d starts with %s %d, not CLEAR_STACK %d" % (b, op(b), code[b][1], np_)))
-                # `catch (name)`: INT no; PUSH_EXCEPT; OP_EQ_INT; JUMPZ -> must go to this block's handler
+                # `catch (name)`: INT no; PUSH_EXCEPT; OP_EQ_INT; JUMPZ -> the non-matching exit must continue
+                # where this block's handler leads (the emitter jumps past the handler LABEL: h + 1)
                 if (op(b + 1) == "BYTECODE_INT" and op(b + 2) == "BYTECODE_PUSH_EXCEPT"
                         and op(b + 3) == "BYTECODE_OP_EQ_INT" and op(b + 4) == "BYTECODE_JUMPZ"):
                     tgt = b + 4 + 1 + code[b + 4][1]
-                    if tgt != h:
+                    if tgt not in (h, h + 1):
                         bad.append((b, "clause at %d: non-matching exit jumps to %d, its handler is %d" % (b, tgt, h)))
             if bi + 1 < len(mine):
                 if mine[bi + 1] != nxt:
@@ -152,6 +157,15 @@ def fault_steps(d, names):
         if nip != a + 1 and nip == handler(a):
             out.append((i, a))
     return out
+
+
+def splittable(d, names, fs):
+    """first faulting address usable for the block-boundary test: FUNC_FFI raises with ip advanced past
+    its descriptors (any address of its one-block body is looked up), so it is skipped"""
+    for _i, a in fs:
+        if names[d["code"][a][0]] != "BYTECODE_FUNC_FFI":
+            return a
+    return None
 
 
 # ------------------------------------------------------------------ running programs
@@ -251,6 +265,19 @@ def run(ctx):
                    not g["problems"], g["problems"])
     tools = vmcheck.VmTools("asan")
     lib = tools.lib
+    # private copy of the extracted runner: other checks running at the same time may relink
+    # build/ocaml/verifier/run under our feet
+    import shutil
+    for attempt in range(20):
+        try:
+            shutil.copy2(tools.vrun, os.path.join(tools.tmp, "vrun"))
+            if subprocess.run([os.path.join(tools.tmp, "vrun"), "/dev/null"], stdout=subprocess.PIPE,
+                              stderr=subprocess.PIPE).returncode == 0:
+                tools.vrun = os.path.join(tools.tmp, "vrun")
+                break
+        except OSError:
+            pass
+        time.sleep(0.5)
     nevrun = common.cc_driver("nevrun", ["common/nevrun.c"], lib)
     bcsrc = open(os.path.join(common.VERIF, "harness", "vm", "bcdump.c"), "rb").read()
     import hashlib
@@ -380,7 +407,7 @@ def run(ctx):
         v = tools.verify(dump, max_steps=vsteps)
         lay = layout_check(d, names)
         fs = fault_steps(d, names) if trace else []
-        d2 = {"end": d["end"], "out": d["out"], "nfaults": len(fs), "first_fault": fs[0][1] if fs else None,
+        d2 = {"end": d["end"], "out": d["out"], "nfaults": len(fs), "first_fault": splittable(d, names, fs),
               "ntrace": len(d["trace"]), "nexct": len(d["exct"]), "ncode": len(d["code"]),
               "clear": sum(1 for c in d["code"] if names[c[0]] == "BYTECODE_CLEAR_STACK")}
         try:
@@ -432,7 +459,7 @@ def run(ctx):
             if d2["nfaults"] > 0:
                 stats["lockstep_runs_with_fault"] += 1
                 shapes.add((d2["ncode"], d2["nexct"], d2["nfaults"], d2["first_fault"]))
-                if kind == "fam" and key not in bad_ids:
+                if kind == "fam" and key not in bad_ids and d2["first_fault"] is not None:
                     split_cands.append((key, d2["first_fault"], d2["end"], d2["out"]))
         if len(first_samples) < 3 and kind == "fam" and d2["nfaults"] > 0:
             first_samples.append({"program": label, "module": v["module"], "verify": ver, "lockstep": lock,
@@ -447,7 +474,8 @@ def run(ctx):
     # one per fault kind first
     chosen, seenk = [], set()
     for c in split_cands:
-        k = fam[c[0]][3].split(":")[0] + ":" + (fam[c[0]][3].split(":")[1] if ":" in fam[c[0]][3] else "")
+        k = ":".join(fam[c[0]][3].split(":")[:2]) if fam[c[0]][3].split(":")[0] in ("loop", "closure", "recursion") \
+            else fam[c[0]][3].split(":")[0]
         if k not in seenk:
             seenk.add(k)
             chosen.append(c)
@@ -479,16 +507,19 @@ def run(ctx):
             ctx.correspondence_broken("block-boundary:%s" % fam[key][0], {"error": "patched run did not finish"})
             continue
         split_ok = (a + 1) in [b for b, _h in d["exct"]]
-        same = (re.sub(r" steps=\d+", "", d["end"] or "") == re.sub(r" steps=\d+", "", end or "")) and d["out"] == out
+        # the model reads the patched table too: the VM and the shape machine must agree along the whole
+        # run, and the fault at a must still be delivered to the handler of a (not of a + 1)
+        delivered = a in [x for _i, x in fault_steps(d, names)]
         lock = v["lockstep"]
         if split_ok:
             stats["split_effective"] += 1
-        if not same or not lock.startswith("LOCKSTEP ok"):
+        if not delivered or not lock.startswith("LOCKSTEP ok"):
             stats["split_bad"] += 1
             ctx.correspondence_broken(
                 "block-boundary-lookup",
                 {"program": fam[key][0], "source": fam[key][1], "fault_address": a, "block_split_at": a + 1,
                  "unpatched": {"end": end, "out": out}, "patched": {"end": d["end"], "out": d["out"]}, "lockstep": lock,
+                 "fault_at_a_delivered_to_its_handler": delivered,
                  "note": "with a table block starting right after the faulting instruction the VM must still use the handler "
                          "of the faulting address (ip - 1); model: Shape.fault = handler (ip s)"})
     timing["split_s"] = round(time.time() - t1, 1)
@@ -517,6 +548,8 @@ def run(ctx):
         "overflow/underflow/inexact are never raised by the core on the pinned tree (fetestexcept only maps invalid and divbyzero); not generated",
         "operand kinds flowing through locals/parameters (C01/C02) and arity of dynamic callees (ArityStuck) are outside the shape machine",
         "the shape machine lets every operation fault at every address: theorems cover more faults than the VM can raise",
+        "FUNC_FFI raises with ip advanced past its descriptors: the VM looks up some address of the FFI body, which the layout "
+        "check requires to be one table block; the block-boundary test skips faults raised by FUNC_FFI",
         "block-boundary test runs the real VM on a module whose exception table was patched by the harness (not emitter output): "
         "a failure there is reported as a broken correspondence, not as a property violation",
     ]
